@@ -569,8 +569,9 @@ Definition init2 (a b : name) (oa ob : list name) : sys2 :=
   mkSys2 (init_node a oa) (init_node b ob) [] [] [] [].
 
 (* ================================================================ N-node system (correspondence) *)
-(* Same wiring for any number of contexts, nodes found by name; used by the correspondence runs
-   (2 and 3 contexts); built from the same [node_step]. *)
+(* Same wiring (and the same network semantics as [sys2]) for any number of contexts, nodes found
+   by name; used by the correspondence runs (1-3 contexts) and by the star-topology theorem of C08;
+   built from the same [node_step]. *)
 Definition pair_eqb (a b : name * name) : bool := str_eqb (fst a) (fst b) && str_eqb (snd a) (snd b).
 
 Record sysN := mkSysN {
@@ -592,7 +593,7 @@ Fixpoint routeN (x : name) (os : list out) (s : sysN) : sysN :=
   match os with
   | [] => s
   | OSend y m :: r =>
-      let s := if upN s y x then putc x y (getc s x y ++ [m]) s else s in
+      let s := putc x y (getc s x y ++ [m]) s in
       let s := match req_id_of m with Some id => putp x y (getp s x y ++ [id]) s | None => s end in
       routeN x r s
   | ORes _ :: r => routeN x r s
@@ -635,7 +636,7 @@ Definition stepN (s : sysN) (l : labelN) : option (sysN * list out) :=
       | Some nx, Some ny =>
           if negb (can_send nx y) && negb (can_send ny x) && negb (str_eqb x y) then
             match node_step nx (IPeerAdded y), node_step ny (IPeerAdded x) with
-            | Some (nx', _), Some (ny', _) => Some (putn y ny' (putn x nx' s), [])
+            | Some (nx', _), Some (ny', _) => Some (putc x y [] (putc y x [] (putn y ny' (putn x nx' s))), [])
             | _, _ => None
             end
           else None
@@ -648,8 +649,7 @@ Definition stepN (s : sysN) (l : labelN) : option (sysN * list out) :=
             match node_step n (IPeerRemoved y) with
             | Some (n1, _) =>
                 let '(n2, os) := err_replies n1 (getp s x y) in
-                let s := putp x y [] (putc y x [] (putn x n2 s)) in
-                Some (routeN x os s, os)
+                Some (routeN x os (putp x y [] (putn x n2 s)), os)
             | None => None
             end
           else None
